@@ -123,7 +123,7 @@ theorem files_flatten_same_args (t t' : Tree) (h : flattenStep t = some t') :
             simp only [Bool.and_eq_true] at hblank
             simp at h
             exact ⟨fl, tx, _, lp, afl, atx, akids, aws, rp, ws, k1, k2, lb, inner, rb, k3, rfl, hpos, hcond.2,
-              ⟨hblank.1.1.1.1.1, hblank.1.1.1.1.2, hblank.1.1.1.2, hblank.1.1.2, hblank.1.2⟩, h.symm⟩
+              ⟨hblank.1.1.1.1.1.1, hblank.1.1.1.1.1.2, hblank.1.1.1.1.2, hblank.1.1.1.2, hblank.1.1.2⟩, h.symm⟩
           · simp at h
         · simp at h
       · simp at h
